@@ -95,6 +95,9 @@ impl Prop for C10 {
             let core = CORE_MODES[(b(2) % 4) as usize];
             rec.eval();
             rec.label(&format!("profile:{}", pname));
+            if case.sys.states.iter().any(|s| case.ctx.get_symbol_name(s.symbol) == Some("gate")) {
+                rec.label("shape:constraint-only-gate-state");
+            }
             rec.label(if disable_cores { "generalisation:off" } else { "generalisation:on" });
             rec.label(&format!("cores:{}", core));
             let mut ctx = case.ctx.clone();
